@@ -126,6 +126,9 @@ func drawClock(s Src, c sim.Config, nsteps int) sim.Config {
 	if Bool(s, "clockns") {
 		c.ClockNs = int64(s.Int("ns", 0, 999999))
 	}
+	if Chance(s, "ticktime", 1, 3) {
+		c.ClockTickUs = Pick(s, "tickus", []int64{1, 50, 1000, 20000})
+	}
 	c.TZOffsetMin = Pick(s, "tz", []int{0, 0, 360, -300, 330, 765, -720, 345})
 	return c
 }
